@@ -10,6 +10,7 @@ package main
 
 import (
 	"fmt"
+	"math/big"
 	"sort"
 )
 
@@ -188,6 +189,30 @@ func init() {
 	addArith("mul_pos", []string{"a", "b"}, func(a []*Term) *Term {
 		return Implies(And(Le(zero, a[0]), Le(zero, a[1])), Le(zero, Mul(a[0], a[1])))
 	}, "0<=a, 0<=b => 0 <= a*b")
+	addArith("barrett", []string{"P", "u", "q"}, func(a []*Term) *Term {
+		P, u, q := a[0], a[1], a[2]
+		WW := Const(new(big.Int).Mul(W64, W64))
+		pre := And(Lt(zero, q), Le(zero, P), Lt(P, WW), Le(Mul(u, q), WW), Lt(WW, Mul(Add(u, ConstI(1)), q)))
+		s := Div(Mul(P, u), WW)
+		d := Sub(P, Mul(s, q))
+		return Implies(pre, And(Le(zero, d), Lt(d, MulC(big.NewInt(2), q))))
+	}, "u = floor(2^128/q), 0<=P<2^128, s = floor(P*u/2^128)  =>  0 <= P - s*q < 2q")
+	addArith("barrett_w", []string{"P", "u", "q", "s", "rem"}, func(a []*Term) *Term {
+		P, u, q, sq, rem := a[0], a[1], a[2], a[3], a[4]
+		WW := Const(new(big.Int).Mul(W64, W64))
+		pre := And(Lt(zero, q), Le(zero, P), Lt(P, WW), Le(Mul(u, q), WW), Lt(WW, Mul(Add(u, ConstI(1)), q)),
+			Eq(Mul(P, u), Add(Mul(sq, WW), rem)), Le(zero, rem), Lt(rem, WW))
+		d := Sub(P, Mul(sq, q))
+		return Implies(pre, And(Le(zero, d), Lt(d, MulC(big.NewInt(2), q))))
+	}, "u = floor(2^128/q), 0<=P<2^128, P*u = s*2^128 + rem, 0<=rem<2^128  =>  0 <= P - s*q < 2q")
+	addArith("barrett1", []string{"a", "u", "q"}, func(a []*Term) *Term {
+		x, u, q := a[0], a[1], a[2]
+		WW := Const(new(big.Int).Mul(W64, W64))
+		pre := And(Lt(zero, q), Le(zero, x), Lt(x, Wc), Le(Mul(u, q), WW), Lt(WW, Mul(Add(u, ConstI(1)), q)))
+		s := Div(Mul(x, u), Wc)
+		d := Sub(MulC(W64, x), Mul(s, q))
+		return Implies(pre, And(Le(zero, d), Lt(d, MulC(big.NewInt(2), q))))
+	}, "u = floor(2^128/q), 0<=a<2^64, s = floor(a*u/2^64)  =>  0 <= a*2^64 - s*q < 2q")
 	addArith("small_multiple", []string{"k", "q", "lo", "hi"}, func(a []*Term) *Term {
 		// lo <= k*q <= hi with -q < lo, hi < q and q > 0 forces k = 0
 		k, q, lo, hi := a[0], a[1], a[2], a[3]
